@@ -310,6 +310,28 @@ func (e *env[E, FE]) Additive(t T, c *pcase) {
 
 // ---- ISN ----------------------------------------------------------------------------------------------------
 
+// knownISNSolo: ISN (through cnf.ConvertToCNF) takes the union of the maximal unqualified sets as
+// the shareholder universe; a holder that is qualified on its own lies in none of them, is not a
+// shareholder of the scheme and is dealt no share.
+const knownISNSolo = "C02-isn-solo-holder-no-share"
+
+// ISNSoloProbe reports whether ISN over the case's structure lacks holder h: (not among the
+// scheme's shareholders or not dealt a share or not accepted alone although qualified alone).
+func (e *env[E, FE]) ISNSoloProbe(t T, c *pcase, h int) bool {
+	t.Helper()
+	scheme, err := isn.NewFiniteScheme[FE](e.f, c.ac)
+	if err != nil {
+		t.Fatalf("%v: isn.NewFiniteScheme: %v", c, err)
+	}
+	out, err := scheme.Deal(isn.NewSecret(e.f.One()), vlib.NewPRNG(c.seed, "isn/solo"))
+	if err != nil {
+		t.Fatalf("%v: isn Deal: %v", c, err)
+	}
+	id := sharing.ID(c.ids[h])
+	_, dealt := out.Shares().Get(id)
+	return !scheme.Shareholders().Contains(id) || !dealt || !scheme.CanReconstruct(id)
+}
+
 func (e *env[E, FE]) ISN(t T, c *pcase) {
 	t.Helper()
 	f, q := e.f, e.q
